@@ -106,6 +106,7 @@ def run(tier, seed, build, res):
                 res.failures.append(('c06:%r' % s, c.json(),
                                      'output %r, the documented table gives %r'
                                      % ((im[1][1], im[1][2]), want)))
+    options_stream(rng, res, 300 if tier == 'quick' else 6000)
     # the table of the property text against the table of the code
     got = {k: v for k, v in parms.special_tokens.items()}
     for k, v in TABLE.items():
@@ -116,6 +117,37 @@ def run(tier, seed, build, res):
                                  % (k, got.get(k), v)))
     for j in core.load_corpus('C06'):
         pass
+
+
+WIDE = SYMS + list('xXyzQ019:;()') + ['\\&', '\\#', '\\_', '\\}', 'ß', 'я', '---', "''"]
+
+
+def options_stream(rng, res, n):
+    """the same claim under the option settings: random strings over a wider
+    alphabet x (nosp, packages, language, simple equations), through
+    tex2txt(); correspondence with the model"""
+    cases = []
+    for _ in range(n):
+        s = ''.join(rng.choice(WIDE) for _ in range(rng.randint(3, 40)))
+        if on_blank_line(s):
+            continue
+        cases.append((parsecase.T2T(s, lang=rng.choice(['en', 'de', 'ru', 'en-GB']),
+                                    pack=rng.choice(['', '*', 'amsmath,babel']),
+                                    nosp=rng.random() < 0.5, seqs=rng.random() < 0.3,
+                                    files={}), None, 'options'))
+
+    def project(r):
+        return r[:2] if r[0] == 'OK' else (r[0],)
+
+    def oracle(c, d, kind, im):
+        if im[0] != 'OK':
+            return 'no result: %r' % (im,)
+        want = reference(c.latex)
+        if (im[1][1], im[1][2]) != want:
+            return ('output %r under options nosp=%r pack=%r lang=%r, the documented '
+                    'table gives %r' % ((im[1][1], im[1][2]), c.nosp, c.pack, c.lang, want))
+        return None
+    universe.run(cases, res, 'options', project, oracle)
 
 
 def replay(payload, build, res):
